@@ -43,6 +43,9 @@ type Server struct {
 
 // NewServer returns a server
 func NewServer(c Config) *Server {
+	if s := verifNewServer(c); s != nil {
+		return s
+	}
 
 	// os gives us a free Port when Port is ""
 	ln, err := net.Listen("tcp", c.Port)
@@ -92,6 +95,9 @@ func (s *Server) ListenAndServe(ctx context.Context) error {
 			c.Close()
 		}
 		// Stop listener
+		if ln := verifListener(s); ln != nil {
+			ln.Close()
+		}
 		s.listener.Close()
 	}()
 	return s.listenAndServe(s.addrString(), s.Mux, s.context)
